@@ -206,8 +206,11 @@ theorem comments_preserved (inp out : Str) (h : validFormat inp out = true) :
     Moves that are built into the comparison (documented): (a) a comment BETWEEN two tokens of one
     declaration counts as leading for the right token unless the left token is `;`, `{` or a
     body-closing `}` (`gapNorm`); (b) the trailing comment of a dropped message-literal separator
-    moves to the token before it (`absorb`); (c) a token that is dropped carries no comment
-    (`FormatRel.clean`), otherwise the run is rejected. -/
+    moves to the last token of the field value before it, or, when that token already has a
+    trailing comment, in front of the leading comments of the token after the separator
+    (`absorb`; before the repair it was lost in the second case: `sep_trailing_comment_lost_counterexample`);
+    (c) a token that is dropped carries no other comment (`FormatRel.clean`), otherwise the run is
+    rejected. -/
 theorem comments_attached (inp out : Str) (h : validFormat inp out = true) :
     let SI := (stmts (normD (decorate (lex inp)))).map gapNorm
     let SO := (stmts (decorate (lex out))).map gapNorm
@@ -277,6 +280,20 @@ example : validFormat "message M{int32 a=0x10;}".toList "message M {\n  int32 a 
 -- a duplicate import that carries a comment must not be elided; without comment it may
 example : validFormat "import \"a\";//c\nimport \"a\";".toList "import \"a\";\n".toList = false := by decide +kernel
 example : validFormat "import \"a\";import 'a';".toList "import \"a\";\n".toList = true := by decide +kernel
+-- the trailing comment of a dropped separator whose value has a trailing comment already is printed
+-- on its own line below the field (repaired); losing it, or printing it elsewhere, is rejected
+example : validFormat "option (o) = { a: 1 // v\n , // s\n b: 2 };".toList "option (o) = {\n  a: 1 // v\n  // s\n  b: 2\n};\n".toList = true := by decide +kernel
+example : validFormat "option (o) = { a: 1 // v\n , // s\n b: 2 };".toList "option (o) = {\n  a: 1 // v\n  b: 2\n};\n".toList = false := by decide +kernel
+example : validFormat "option (o) = { a: 1 // v\n , // s\n b: 2 };".toList "option (o) = {\n  a: 1 // v\n  b: 2 // s\n};\n".toList = false := by decide +kernel
+-- ... after a composite value (signed number) it moves to the last token of the value (repaired)
+example : validFormat "option (o) = { d: -1.5, /* c */\n b: 2 };".toList "option (o) = {\n  d: -1.5 /* c */\n  b: 2\n};\n".toList = true := by decide +kernel
+example : validFormat "option (o) = { d: -1.5, /* c */\n b: 2 };".toList "option (o) = {\n  d: -1.5\n  b: 2\n};\n".toList = false := by decide +kernel
+-- a LEADING comment of a dropped separator is still lost by the formatter (recorded finding): rejected
+example : validFormat "option (o) = { a: 1 /* c */ , b: 2 };".toList "option (o) = {\n  a: 1\n  b: 2\n};\n".toList = false := by decide +kernel
+-- a duplicate import whose only comment sits between the parts of a concatenated name is kept (repaired)
+example : validFormat "import \"a.proto\"; import \"a.\" /* c */ \"proto\";".toList "import\n  \"a.\"\n  /* c */\n  \"proto\"\n;\n".toList = true := by decide +kernel
+example : isFormatted "import\n  \"a.\"\n  /* c */\n  \"proto\"\n;\n".toList = true := by decide +kernel
+example : validFormat "import \"a.proto\"; import \"a.\" /* c */ \"proto\";".toList "import \"a.proto\";\n".toList = false := by decide +kernel
 -- a comment on an empty statement would be lost with it: rejected whatever the output is
 example : validFormat "message M{}\n// c\n;".toList "message M {}\n".toList = false := by decide +kernel
 -- not in normal form: two spaces / options unsorted / an empty statement left / import after a message
@@ -298,14 +315,31 @@ theorem header_idempotent (h : Header) : canon (canon h) = canon h := by
   rw [isort_of_sorted _ _ hsub, elide_idem, isort_of_sorted _ _ ho]
 
 set_option maxRecDepth 100000 in
-/-- The recorded finding `comment-dropped:comment-inside-concatenated-string` in the MODEL of the
-    code as it is: `importHasComment` does not look between the parts of a concatenated file
-    name, so the modelled canonicalisation elides that duplicate import together with its
-    comment.  (The checker rejects such a run: the elided statement carries a comment.) -/
+/-- The repaired finding `comment-dropped:comment-inside-concatenated-string`, in the model of the
+    code BEFORE the repair (`importHasCommentOld`): the old predicate does not look between the
+    parts of a concatenated file name, so the duplicate import counted as comment-free and was
+    elided together with its comment; the repaired predicate (`importHasComment`: any token of the
+    statement) sees the comment, and the modelled canonicalisation keeps the statement and the
+    comment.  (The checker rejects a run that elides it: the elided statement carries a comment.) -/
 theorem elision_loses_comment_counterexample :
     let ss := stmts (decorate (lex "import \"a.proto\"; import \"a.\" /* c */ \"proto\";".toList))
-    (canonImports (ofCls .imp ss)).length = 1 ∧
-      commentsOf (canonImports (ofCls .imp ss)).flatten = [] ∧ commentsOf ss.flatten ≠ [] := by
+    (ofCls .imp ss).map importHasCommentOld = [false, false] ∧
+      (ofCls .imp ss).map importHasComment = [false, true] ∧
+      (canonImports (ofCls .imp ss)).length = 1 ∧
+      commentsOf (canonImports (ofCls .imp ss)).flatten = commentsOf ss.flatten ∧ commentsOf ss.flatten ≠ [] := by
+  decide +kernel
+
+set_option maxRecDepth 100000 in
+/-- The repaired finding `comment-dropped:trailing-comment-on-message-literal-separator-whose-value-has-one`,
+    in the model of the code BEFORE the repair (`absorbOld`): the trailing comment `s` of the
+    dropped `,` is lost when the value `1` has the trailing comment `v`; the repaired rule
+    (`absorb`) hands it to the token after the separator, so nothing is lost. -/
+theorem sep_trailing_comment_lost_counterexample :
+    let ds := decorate (lex "option (o) = { a: 1 // v\n , // s\n b: 2 };".toList)
+    let l := ds.zip (roles (toks ds))
+    (commentsOf ds).length = 2 ∧
+      (commentsOf ((l.foldr absorbOld []).flatMap normTokD)).length = 1 ∧
+      (commentsOf (normD ds)).length = 2 ∧ dropsClean (annotateD ds) = true := by
   decide +kernel
 
 /-- The canonical option order is sorted and a permutation of the input. -/
